@@ -137,7 +137,7 @@ func scale(pts []ref.P, f int64) []ref.P {
 }
 
 func init() {
-	register(&Prop{ID: "C01", Scopes: scopesValid, Judge: judgeC01,
+	register(&Prop{ID: "C01", PinnedFrom: []string{"C01"}, Scopes: scopesValid, Judge: judgeC01,
 		Rule: "every valid polygon of each lattice scope (all simple CCW shells incl. every rotation, holes strictly inside and disjoint) x id sets x configs is snapped by the real code; all boundary edges of one id are tested pairwise for a proper crossing in exact integer arithmetic; non-trivial input = the reference router inserts a vertex or visits a centre twice"})
 	_ = snap.Config{}
 }
